@@ -20,7 +20,21 @@ static inline void shape_vertices(TK *m, int n) { for (int i = 0; i < 8; i++) if
 #define SHAPE_TWOTETS 2      /* two tetrahedra glued on a triangle: 5 v, 9 e, 7 f, 2 cells */
 #define SHAPE_QUADPILLOW 3   /* two quads on the same four edges bounding one cell: 4 v, 4 e, 2 f, 1 cell */
 #define SHAPE_OPEN 4         /* two triangles sharing an edge, plus a free edge and an isolated vertex; no cell */
-#define N_SHAPES 5
+#define SHAPE_RING3 5        /* three tetrahedra closed around the edge (0,1): 5 v, 10 e, 9 f, 3 cells */
+#define SHAPE_FAN3 6         /* three tetrahedra in an open fan around the edge (0,1): 6 v, 12 e, 10 f, 3 cells */
+#define N_SHAPES 7
+/* the halfface with vertices (p,q,r) in this cyclic order; the face is created when it does not exist yet */
+static inline int shape_hf(TK *m, int p, int q, int r) {
+  for (unsigned long f = 0; f < LF; f++) if (f < m->faces_.size && FVAL(m, f) == 3) for (int side = 0; side < 2; side++) {
+    int hf = 2 * (int)f + side; int a = spec_hf_vertex(m, hf, 0), b = spec_hf_vertex(m, hf, 1), c = spec_hf_vertex(m, hf, 2);
+    if ((a == p && b == q && c == r) || (a == q && b == r && c == p) || (a == r && b == p && c == q)) return hf;
+  }
+  return 2 * shape_face(m, 3, p, q, r, 0).idx_;
+}
+static inline void shape_tet(TK *m, int p, int q, int r, int s) {
+  int h[6] = {shape_hf(m, p, q, r), shape_hf(m, p, r, s), shape_hf(m, p, s, q), shape_hf(m, q, s, r), 0, 0};
+  shape_cell(m, 4, h, 1);
+}
 static inline void shape_build(TK *m, int shape) {
   tk_init(m);
   if (shape == SHAPE_TET) {
@@ -51,6 +65,12 @@ static inline void shape_build(TK *m, int shape) {
     int fb = TopologyKernel__add_face__std_vector_HEH_bool(m, l, 1).idx_;
     int hfs[6] = {2 * fa, 2 * fb, 0, 0, 0, 0};
     shape_cell(m, 2, hfs, 1);
+  } else if (shape == SHAPE_RING3) {
+    shape_vertices(m, 5);
+    shape_tet(m, 0, 1, 2, 3); shape_tet(m, 0, 1, 3, 4); shape_tet(m, 0, 1, 4, 2);
+  } else if (shape == SHAPE_FAN3) {
+    shape_vertices(m, 6);
+    shape_tet(m, 0, 1, 3, 4); shape_tet(m, 0, 1, 2, 3); shape_tet(m, 0, 1, 4, 5);
   } else {
     shape_vertices(m, 7);
     shape_face(m, 3, 0, 1, 2, 0); shape_face(m, 3, 0, 2, 3, 0);
